@@ -12,7 +12,7 @@ REPO = os.environ.get("VERIF_REPO", "/repo")
 VX = os.path.join(VERIF, "vx", "target", "release", "vx")
 
 
-INLINE = {}  # src rel -> set of helper names to inline at their call sites (E12)
+INLINE = {}  # (unit, src rel) -> set of helper names to inline at their call sites (E12)
 AUTO = {}   # src rel -> set of item names pulled in automatically (helpers the extracted text calls)
 
 
@@ -296,7 +296,7 @@ class Unit:
         checks the exec body against it, so this is the helper's strongest postcondition obtained
         mechanically (works only for pure, loop-free helpers; otherwise rustc/Verus rejects it and
         the run is undecided)."""
-        for name in sorted(AUTO.get(src.rel, ())):
+        for name in sorted(AUTO.get((self.name, src.rel), ())):
             hits = [it for it in src._walk(src.index["items"]) if it.get("name") == name and it["kind"] in ("fn", "const", "type", "struct", "enum")
                     and not it.get("qual", "").startswith("tests::") and "::" not in it.get("qual", "")]
             if len(hits) != 1:
@@ -311,7 +311,7 @@ class Unit:
                 continue
             sig = it["sig"]
             if any(i.get("self") for i in sig["inputs"]) or not sig["output"] or sig["async"]:
-                raise Undecided(f"auto-include: helper {name} in {src.rel} is not a pure free fn; it needs a contract of its own")
+                raise Undecided(f"auto-include: helper {name} in {src.rel} is not a pure free fn (inline it: E12)")
             args = ", ".join(src.text(*i["pat"]) for i in sig["inputs"])
             params = src.text(sig["paren_open"], sig["paren_close"] + 1)
             gen = src.text(*sig["generics"]) if sig["generics"] else ""
@@ -1076,7 +1076,7 @@ class Unit:
         checked here: no `return` in the helper; if the helper body uses `?`, the call itself is
         immediately followed by `?` and both functions return the same `Result<_>` alias (so the
         error takes the same conversions); parameters are plain identifiers; no generics; depth <= 2."""
-        names = INLINE.get(src.rel, set())
+        names = INLINE.get((self.name, src.rel), set())
         if not names:
             return []
         eds = []
@@ -1100,7 +1100,17 @@ class Unit:
             hn = h["nodes"]
             ret_edits = self._guard_returns(src, h, hname)
             if h["sig"]["generics"]:
-                raise Undecided(f"E12: helper {hname} is generic: not inlined")
+                # a generic helper is inlined only when each of its type parameters has the name of a
+                # type parameter of the caller (the usual shape of a helper split off a generic fn);
+                # if the call instantiates them differently the inlined text does not type-check
+                hg = set(re.findall(r"\b([A-Z]\w*)\b\s*(?:[:,>])", src.text(*h["sig"]["generics"])))
+                cg_src = src.text(*it["sig"]["generics"]) if it.get("sig") and it["sig"].get("generics") else ""
+                encl = [x for x in src._walk(src.index["items"]) if x["kind"] == "impl" and x["span"][0] <= it.get("start", it.get("span", [0])[0]) <= x["span"][1]] if it.get("sig") else []
+                for x in encl:
+                    cg_src += " " + src.text(x["start"], x.get("open", x["span"][1]))
+                cg = set(re.findall(r"\b([A-Z]\w*)\b", cg_src))
+                if not hg or not hg <= cg:
+                    raise Undecided(f"E12: helper {hname} is generic over {sorted(hg)} which are not all type parameters of the caller: not inlined")
             params = [p_ for p_ in h["sig"]["inputs"] if not p_.get("self")]
             if len(params) != len(n["args"]):
                 raise Undecided(f"E12: arity mismatch at call of {hname}")
